@@ -178,26 +178,31 @@ def run_coqchk(files):
             done = json.load(open(cf))
         except Exception:
             done = {}
-    pending = [m for m in mods if m not in done.get("accepted", [])]
-    res = {"ok": True, "modules": mods, "served_from_cache": [m for m in mods if m not in pending], "axioms_of_all_loaded_libraries": done.get("axioms", [])[:200], "log": ""}
-    if not pending:
-        res["completed"] = True
-        return res
-    budget = int(os.environ.get("VERIF_COQCHK_BUDGET", "1800"))
-    rc, out = sh("timeout %d coqchk -silent -o -Q theories AC %s 2>&1" % (budget, " ".join(pending)), cwd=COQDIR, timeout=budget + 100)
-    if rc == 0:
-        m = re.search(r"\* Axioms:(.*?)\n\s*\n\* Constants", out, re.S)
-        axioms = [x.strip() for x in (m.group(1).split("\n") if m else []) if x.strip() and x.strip() != "<none>"]
-        done.setdefault("accepted", [])
-        done["accepted"] = sorted(set(done["accepted"]) | set(pending))
-        done["axioms"] = sorted(set(done.get("axioms", [])) | set(axioms))
-        json.dump(done, open(cf, "w"))
-        res.update(completed=True, axioms_of_all_loaded_libraries=done["axioms"][:200])
-    elif rc == 124:
-        res.update(completed=False, note="coqchk did not finish within its time budget of %d s for %s: not a rejection (every file was accepted by coqc); "
-                                           "run harness/tools/coqchk_all.sh to complete it for this build" % (budget, " ".join(pending)))
-    else:
-        res.update(ok=False, completed=True, log=out[-1500:])
+    res = {"ok": True, "completed": True, "modules": mods, "served_from_cache": [m for m in mods if m in done.get("accepted", [])], "log": "", "notes": []}
+    # first the property's own file Cnn.v (the per-function theorems: a closure that coqchk re-checks in about a minute), then the run- and
+    # configuration-level files (closure = most of the development), each group under its own budget
+    prim = [m for m in mods if re.fullmatch(r"AC\.Properties\.C\d\d", m)]
+    groups = [(prim, 1500), ([m for m in mods if m not in prim], int(os.environ.get("VERIF_COQCHK_BUDGET", "900")))]
+    for group, budget in groups:
+        pending = [m for m in group if m not in done.get("accepted", [])]
+        if not pending:
+            continue
+        rc, out = sh("timeout %d coqchk -silent -o -Q theories AC %s 2>&1" % (budget, " ".join(pending)), cwd=COQDIR, timeout=budget + 100)
+        if rc == 0:
+            m = re.search(r"\* Axioms:(.*?)\n\s*\n\* Constants", out, re.S)
+            axioms = [x.strip() for x in (m.group(1).split("\n") if m else []) if x.strip() and x.strip() != "<none>"]
+            done["accepted"] = sorted(set(done.get("accepted", [])) | set(pending))
+            done["axioms"] = sorted(set(done.get("axioms", [])) | set(axioms))
+            json.dump(done, open(cf, "w"))
+        elif rc == 124:
+            res["completed"] = False
+            res["notes"].append("coqchk did not finish within its time budget of %d s for %s: not a rejection (every file was accepted by coqc); "
+                                "harness/tools/coqchk_all.sh completes it for this build" % (budget, " ".join(pending)))
+        else:
+            res.update(ok=False, log=out[-1500:])
+            break
+    res["accepted_by_coqchk"] = [m for m in mods if m in done.get("accepted", [])]
+    res["axioms_of_all_loaded_libraries"] = done.get("axioms", [])[:200]
     return res
 
 
